@@ -22,7 +22,7 @@ APIS = [f"{t}: a+b, a*b, a.star(), zero, one" for t in TYPES]
 
 
 def plan(tier, seed):
-    return common.plan_shards(tier, seed, n_quick=40, n_thorough=400, budget_quick=25, budget_thorough=200)
+    return common.plan_shards(tier, seed, n_quick=40, n_thorough=1200, budget_quick=25, budget_thorough=200)
 
 
 def gates(tier):
